@@ -35,6 +35,26 @@ pub fn small_value(t: &mut Tape, ty: Ty) -> V {
     }
 }
 
+/// values over a domain wide enough for dozens of groups
+pub fn wide_value(t: &mut Tape, ty: Ty) -> V {
+    match ty {
+        Ty::Int => V::Int(t.range(-5, 60)),
+        Ty::Real => V::Real(t.range(-40, 80) as f64 / 4.0),
+        Ty::Text => V::Text(format!("k{}", t.range(0, 40))),
+        other => small_value(t, other),
+    }
+}
+
+pub fn gen_wide_lines(t: &mut Tape, table: &DataTable, max_rows: usize) -> Vec<String> {
+    let n = t.draw(max_rows + 1);
+    (0..n)
+        .map(|_| {
+            let values: Vec<V> = table.cols.iter().map(|(_, ty)| if t.chance(1, 8) { V::Null } else { wide_value(t, *ty) }).collect();
+            table.line(&values, t)
+        })
+        .collect()
+}
+
 pub fn gen_group_lines(t: &mut Tape, table: &DataTable, max_rows: usize) -> Vec<String> {
     let n = t.draw(max_rows + 1);
     let mut lines = Vec::new();
@@ -364,7 +384,7 @@ impl Property for C04 {
     }
 
     fn rule(&self) -> String {
-        "a typed table x up to 14 lines over small value domains (so that groups form; NULL with probability 1/4 per cell; non-admitted lines) x an aggregate statement: any mix and order of key \
+        "a typed table x up to 14 lines over small value domains (so that groups form; NULL with probability 1/4 per cell; non-admitted lines; one case in eight: up to 90 lines over a wide key domain, dozens of groups) x an aggregate statement: any mix and order of key \
          expressions and COUNT(*) / COUNT() / COUNT(c) / COUNT(DISTINCT c) / SUM / MIN / MAX / AVG / STDDEV / VARIANCE / PERCENTILE(p incl. 0.0 and 1.0) / BOOL_AND / BOOL_OR / STRING_AGG / ARRAY_AGG, \
          arithmetic or function wrappers, 0-2 GROUP BY elements (column or expression), optional WHERE, optional HAVING over aggregates (also ones absent from the select list) and keys. \
          Oracle: naive filter / bucket-by-equal-key / order / fold reference over the rows the real extract produced; table compared row by row and cell by cell (PERCENTILE by a validity predicate, \
@@ -381,13 +401,13 @@ impl Property for C04 {
 
     fn cases(&self, tier: Tier) -> u64 {
         match tier {
-            Tier::Quick => 150_000,
+            Tier::Quick => 450_000,
             Tier::Thorough => 2_000_000,
         }
     }
 
     fn tape_len(&self) -> usize {
-        700
+        2400
     }
 
     fn label_floors(&self) -> Vec<(&'static str, f64)> {
@@ -396,9 +416,10 @@ impl Property for C04 {
 
     fn generate(&self, t: &mut Tape, ctx: &Ctx) -> Case {
         let table = gen_table(t, "t", "c", false);
-        let lines = gen_group_lines(t, &table, 14);
         let mut excluded = 0;
         let query = gen_aggregate_query(t, &table, ctx, true, &mut excluded);
+        // one case in eight: dozens of groups (wide key domain, up to 90 lines)
+        let lines = if t.chance(1, 8) { gen_wide_lines(t, &table, 90) } else { gen_group_lines(t, &table, 14) };
         Case { table, lines, query }
     }
 
@@ -431,6 +452,9 @@ impl Property for C04 {
         if let TableOutcome::Rows(r) = &expected {
             if r.len() >= 2 {
                 obs.label("several-groups");
+            }
+            if r.len() >= 17 {
+                obs.label("17+ groups");
             }
             if r.iter().any(|cells| cells.iter().any(|c| matches!(c, Cell::Exact(ev) if ev.k == crate::eval::K::Val(V::Null)))) {
                 obs.label("all-null-argument-group");
